@@ -64,7 +64,8 @@ def run(ctx):
                 "(b) SSHClient.connect through each entry point {password=, pkey=, auth_strategy=password source, "
                 "auth_strategy=private-key source}: {default, non-default port} x known_hosts {same key, different key same type, only "
                 "other key types, hashed entry, entry under the other port's name, none} x {Reject, AutoAdd, Warning, "
-                "custom accept, custom refuse}; Transport.connect(hostkey = same / other of same type / other type / "
+                "custom accept, custom refuse}; (b2) system store x user store (load_system_host_keys / load_host_keys: none, same key, "
+                "other types, different key of the same type) x policy; Transport.connect(hostkey = same / other of same type / other type / "
                 "None). non-trivial = an auth call was made before the kex completed, the signature was forged, or the "
                 "presented key differs from the expected one")
     ctx.trust("gated client harness (pv/lib_clientguard.py); the outbound-cipher flag is read from the Packetizer "
@@ -174,6 +175,43 @@ def run(ctx):
             ctx.fail("secret-in-plaintext", case, "password in the client's raw output")
         if vname in ("none", "other-port-name-only") and pol.startswith("custom") and obs["policy_called"] != [name]:
             ctx.fail("policy-not-consulted-for-unknown-host", case, repr(obs["policy_called"]))
+
+    # ---------------- (b2) two stores: load_system_host_keys is consulted first, load_host_keys only if it has no entry
+    stores = {
+        "none": [], "same-key": [server_key], "other-types": [keys["rsa"], keys["ed"]],
+        "different-key-same-type": [keys["ec2"]],
+    }
+    combos2 = [(sy, us, pol) for sy in stores for us in stores for pol in ("reject", "autoadd", "warning", "custom-ok")]
+    if not ctx.thorough:
+        must = [c for c in combos2 if c[0] == "other-types" and c[2] in ("autoadd", "custom-ok")]
+        combos2 = must + rng.sample([c for c in combos2 if c not in must], 14)
+    name = host
+    reqs = []
+    for sy, us, pol in combos2:
+        ks = lambda lst: "none" if not lst else ",".join(key_tok(k) for k in lst)  # noqa: E731
+        reqs.append("sconn2 %s %s %s %d" % (ks(stores[sy]), ks(stores[us]), key_tok(server_key),
+                                            1 if pol in ("autoadd", "warning", "custom-ok") else 0))
+    replies = ctx.driver("C17", reqs)
+    for i, (sy, us, pol) in enumerate(combos2):
+        ep = rng.choice(entries_points)
+        via = rng.choice(["file", "add"])
+        ctx.dist("user-store-via:" + via)
+        obs = G.run_ssh_client(host, 22, [(name, False, k) for k in stores[us]] + [("decoy.example", False, keys["rsa2"])],
+                               pol, server_key, ep, system_entries=[(name, False, k) for k in stores[sy]], user_via=via)
+        consulted = stores[sy] if stores[sy] else stores[us]
+        should_send = (server_key in consulted) if consulted else pol in ("autoadd", "warning", "custom-ok")
+        ctx.case(("stores", sy, us, pol, ep), sy != "none")
+        ctx.dist("system-store:" + sy)
+        case = {"system_known_hosts": sy, "user_known_hosts": us, "policy": pol, "entry_point": ep, "user_via": via}
+        if replies is not None and replies[i] != obs["outcome"]:
+            ctx.disagree("SSHClient.connect decision (two stores)", case, replies[i], obs["outcome"])
+        if not should_send and (obs["server_saw"] or obs["outcome"] == "authenticate"):
+            ctx.fail("credentials-sent-to-unaccepted-server", case,
+                     "outcome %s, server saw %r" % (obs["outcome"], obs["server_saw"]))
+        if consulted and obs["policy_called"]:
+            ctx.fail("known-host-handed-to-missing-host-key-policy", case, repr(obs["policy_called"]))
+        if G.PASSWORD.encode() in obs["raw"]:
+            ctx.fail("secret-in-plaintext", case, "password in the client's raw output")
 
     # ---------------- (c) Transport.connect(hostkey=…)
     tcases = [("same", keys["ec"], True), ("other-same-type", keys["ec2"], True), ("other-type", keys["rsa"], True),
